@@ -8,15 +8,16 @@
 # version.  Needs no network.  Exit 0 always; prints the count.
 set -u
 TIER=${1:-quick}
-cd /verif
+ROOT=$(cd "$(dirname "$0")/.." && pwd)
+cd "$ROOT"
 T=$(ls -d /root/.rustup/toolchains/nightly-x86_64-unknown-linux-gnu/lib/rustlib/*/bin 2>/dev/null | head -1)
 if [ -z "$T" ] || [ ! -x "$T/llvm-cov" ]; then echo "coverage: no nightly llvm-tools; skipped"; exit 0; fi
-COV=/verif/harness/target-cov
+COV=$ROOT/harness/target-cov
 mkdir -p $COV/prof && rm -f $COV/prof/*.profraw
 (cd harness && CARGO_NET_OFFLINE=true RUSTFLAGS="-Cinstrument-coverage" CARGO_TARGET_DIR=$COV cargo +nightly build --release --offline 2>&1 | tail -1)
 B=$COV/release/tpharness
 [ -x $B ] || { echo "coverage: instrumented build failed; skipped"; exit 0; }
-export VERIF_DICT=/verif/work/dict.txt
+export VERIF_DICT=$ROOT/work/dict.txt
 python3 gen/dict.py
 one() {
   p=$1; k=$2
@@ -27,9 +28,10 @@ export -f one; export B COV TIER
 for p in C01 C02 C03 C04 C05 C06 C07 C08 C09 C10 C11 C12 C13 C14 C15 C16 C17 C18 C19 C20; do echo "$p o"; echo "$p r"; done | xargs -P 16 -L 1 bash -c 'one $0 $1'
 $T/llvm-profdata merge -sparse $COV/prof/*.profraw -o $COV/all.profdata
 $T/llvm-cov export $B -instr-profile=$COV/all.profdata -format=text --ignore-filename-regex='(harness/src|registry|rustc|rustlib)' > $COV/cov.json 2>/dev/null
-python3 - <<'EOF'
-import json, collections
-j = json.load(open('/verif/harness/target-cov/cov.json'))
+ROOT=$ROOT python3 - <<'EOF'
+import json, collections, os
+ROOT = os.environ['ROOT']
+j = json.load(open(ROOT + '/harness/target-cov/cov.json'))
 by = collections.defaultdict(int)
 for f in j['data'][0]['functions']:
     files = [x for x in f['filenames'] if x.startswith('/repo/src')]
@@ -41,7 +43,7 @@ out = []
 for file, line in zero:
     src = open(file).read().splitlines()
     out.append("%s:%d  %s" % (file.replace('/repo/src/', ''), line, src[line - 1].strip()[:100]))
-open('/verif/work/unexecuted.txt', 'w').write("\n".join(out) + ("\n" if out else ""))
+open(ROOT + '/work/unexecuted.txt', 'w').write("\n".join(out) + ("\n" if out else ""))
 print("coverage: %d function definitions of /repo/src, %d never executed (work/unexecuted.txt)" % (len(by), len(zero)))
 EOF
 rm -rf $COV/prof
